@@ -345,7 +345,47 @@ ASSUMPTIONS = [
 ]
 
 _F = INF
+
+@contract(P, "RecordTensor.defaults", [(INF, "RecordTensor.write"), (INF, "RecordTensor.readrange"), (INF, "RecordTensor.writerange")])
+def defaults(c):
+    """what callers get when they leave the optional arguments out (the library's own callers mostly do): write goes to
+    the write position (offset 0) out of place; readrange starts one back (offset 1) and reads backwards; writerange
+    starts at the write position (offset 0), backwards, out of place"""
+    N, ptr, r = _base(c)
+    L, j, k = c.int("L"), c.int("j"), c.int("k")
+    c.require(1 <= L, L <= N, 0 <= j, j < L, 0 <= k, k < N)
+    which = c.choice("operation", ["write", "readrange", "writerange"])
+    if which == "write":
+        obs = c.pw("obs", "float", eshape=r.S)
+        out = c.outcome(r.method("write"), obs)
+        c.expect_return(out)
+        hit = smod(num(k), num(N)) == 0
+        c.ensure("default_write_position", z3.If(hit, r.M1(k) == obs.f, r.M1(k) == r.M0(k)))
+        c.canary("canary_written_one_back", z3.And(smod(num(k) - 1, num(N)) == 0, r.M1(k) == obs.f, z3.Not(hit), r.M0(k) != obs.f))
+    elif which == "readrange":
+        out = c.outcome(r.method("readrange"), L)
+        c.expect_return(out)
+        res = out.value
+        c.ensure("default_offset_one_reading_backwards", z3.And(num(res.tlen) == num(L), res.at(j) == r.M0(1 + L - 1 - j)))
+        c.canary("canary_forward", z3.And(res.at(j) == r.M0(1 - j), L.z > 1, r.M0(1 - j) != r.M0(L - j)))
+    else:
+        obs = c.seq("W", L, "float", "last", r.S)
+        out = c.outcome(r.method("writerange"), obs)
+        c.expect_return(out)
+        W = c.symbols["W"]
+        # same layout as readrange: position j of the range is the observation (L - 1 - j) steps before offset 0
+        jj = c.int("jj")
+        c.require(0 <= jj, jj < L)
+        hit = smod(num(k) - (L.z - 1 - jj.z), num(N)) == 0
+        c.ensure("default_offset_zero_written_backwards", z3.Implies(hit, r.M1(k) == W(jj.z)))
+        covered = z3.And(smod(num(k), num(N)) >= 0, smod(num(k), num(N)) <= L.z - 1)
+        c.ensure("slots_outside_the_range_untouched", z3.Implies(z3.Not(covered), r.M1(k) == r.M0(k)))
+        c.canary("canary_nothing_written", r.M1(k) == r.M0(k))
+
+
 MUTANTS = [
+    dict(file=INF, func="RecordTensor.readrange", old="        offset: int | torch.Tensor = 1,\n        forward: bool = False,\n    ) -> torch.Tensor:", new="        offset: int | torch.Tensor = 0,\n        forward: bool = False,\n    ) -> torch.Tensor:", contracts=["RecordTensor.defaults"], name="readrange: default offset changed"),
+    dict(file=INF, func="RecordTensor.write", old="def write(self, obs: torch.Tensor, offset: int = 0, inplace: bool = False)", new="def write(self, obs: torch.Tensor, offset: int = 1, inplace: bool = False)", contracts=["RecordTensor.defaults"], name="write: default offset changed"),
     dict(file=_F, func="_unwind_ptr", old="(pointer - int(offset)) % size", new="(pointer + int(offset)) % size", contracts=["RecordTensor.read", "RecordTensor.write"]),
     dict(file=_F, func="_unwind_ptr", old="(pointer - int(offset)) % size", new="(pointer - int(offset))", contracts=["RecordTensor.read"]),
     dict(file=_F, func="RecordTensor.read", old="offset: int = 1", new="offset: int = 0"),
